@@ -1,66 +1,124 @@
 /-
   C01 — any original_count of the shards restore every missing original.
 
-  Tier 1 (this file): totality and shape of the decoder's answer on the model:
-  with at least `k` shards added, `decode` returns `ok` (never an error, never a panic) and the
-  result lists exactly the original indexes that were not given, in ascending order, each of
-  length `shard_bytes`.
-  The byte-level statement (restored = encoded originals) is discussed in DESIGN.md §6/C01:
-  which part of it is a theorem and which part is enumeration.
+  MAIN THEOREM `roundtrip`: for every flavour of encoder and decoder that agree on the rate, every
+  supported (k, r), every even shard size, every original data (bytes), every list `os` of original
+  indexes and `rs` of recovery indexes that the decoder accepts (in range, distinct) with
+  |os| + |rs| ≥ k: encoding the originals on the model encoder and giving those shards, under their
+  encode-time indexes, to the model decoder makes `decode` return Ok with exactly the originals that
+  were not given, byte for byte, in ascending order.  Any engine (schedule) on either side, any stale
+  working memory, the real log-Walsh table of the model.
+
+  Proof chain (all Lean; Mathlib for the polynomial part):
+    field laws (Proofs/FieldLaws) → GF16 is a field, generator of order 65535 (Proofs/GF16*) →
+    fft / ifft evaluate / interpolate LCH-basis polynomials (Proofs/FftEval) →
+    Lagrange interpolation on cosets gives the Cauchy generator matrix (Proofs/Lagrange, CauchyEnc*) →
+    codeword polynomial (Proofs/Codeword) → formal derivative in the LCH basis is `G + G'`
+    (Proofs/FormalDeriv, LchDeriv) → decoder core `F·e'` at the erased points (Proofs/DecCore) →
+    eval_poly computes the logs of the locator: Walsh–Hadamard convolution theorem over ZMod 65535
+    (Proofs/Walsh, WalshSpec) and the table contents (Proofs/TableSpec, LocatorSpec) →
+    assembly through prepare / reveal, lanes, byte layout, bookkeeping (Proofs/Roundtrip*).
 -/
-import RSVerif.Model.State
+import RSVerif.Proofs.Roundtrip
+import RSVerif.Proofs.LocatorSpec
+import RSVerif.Proofs.RestoredBasic
 
 namespace RS
 
-theorem restoredList_indices_aux (w : DecWork) (l : List Nat) (hl : ∀ i ∈ l, i < w.k) :
-    (l.filterMap fun i => (w.restoredOriginal i).map fun s => (i, s)).map (·.1)
-      = l.filter fun i => !(w.recvAt (w.obase + i)) := by
-  induction l with
-  | nil => simp
-  | cons i is ih =>
-    have hk : i < w.k := hl i (by simp)
-    have ih' := ih (fun j hj => hl j (by simp [hj]))
-    simp only [List.filterMap_cons, List.filter_cons]
-    by_cases h : w.recvAt (w.obase + i) = true
-    · have hn : w.restoredOriginal i = none := by
-        unfold DecWork.restoredOriginal; simp [h]
-      simp [hn, h, ih']
-    · have hf : w.recvAt (w.obase + i) = false := by simpa using h
-      have hs : ∃ s, w.restoredOriginal i = some s := by
-        unfold DecWork.restoredOriginal; simp [hk, hf]
-      obtain ⟨s, hs⟩ := hs
-      simp [hs, hf, ih']
+/-- the result object exposes exactly the in-range originals that were not given, ascending, each of
+    exactly `shard_bytes` bytes; with at least `k` shards added `decode` answers ok (no error, no
+    panic) in every state -/
+theorem answer_shape (lw : Array Nat) (d : Decoder) (rate : Rate) (w : DecWork)
+    (hin : d.inner = .some rate w) :
+    w.restoredList.map (·.1) = (List.range w.k).filter (fun i => !(w.recvAt (w.obase + i))) ∧
+    (∀ i s, w.restoredOriginal i = some s → s.size = w.sb) ∧
+    (w.k ≤ w.orecv + w.rrecv → ∃ out d', d.decode lw = (.ok out, d')) :=
+  ⟨restoredList_indices w, restoredOriginal_size w, decode_ok_of_enough lw d rate w hin⟩
 
-/-- The result object exposes exactly the in-range originals that were not given, ascending. -/
-theorem restoredList_indices (w : DecWork) :
-    w.restoredList.map (·.1) = (List.range w.k).filter fun i => !(w.recvAt (w.obase + i)) := by
-  unfold DecWork.restoredList
-  exact restoredList_indices_aux w _ (fun i hi => List.mem_range.mp hi)
+/-- the model's `eval_poly` (with the model's log-Walsh table) returns, for every field point, the
+    discrete log of the erasure-locator product — for both decoders and every received set -/
+theorem locator_logs_correct (rate : Rate) (k r : Nat) (hsup : supportsRate rate k r = true)
+    (recv : Nat → Bool) : LocSpecRate rate logWalshArr k r recv := by
+  cases rate
+  · have hr : r ≤ npow2 r := by
+      have : r < 65536 := by
+        simp only [supportsRate, supportsHigh, Bool.and_eq_true, decide_eq_true_eq] at hsup
+        exact hsup.1.2
+      exact le_npow2 (by omega)
+    intro x hx
+    exact locator_high k r recv hr x hx
+  · intro x hx
+    exact locator_low k r recv x hx
 
-/-- every exposed shard has exactly `shard_bytes` bytes -/
-theorem restoredOriginal_size (w : DecWork) (i : Nat) (s : Array Nat)
-    (h : w.restoredOriginal i = some s) : s.size = w.sb := by
-  unfold DecWork.restoredOriginal at h
-  split at h
-  · simp only [Option.some.injEq] at h
-    subst h
-    simp [unlayout]
-  · simp at h
+/-- data path, high rate: given ≥ k shards of an encoding (originals at their positions, recovery =
+    closed-form Cauchy code = what the encoder produces, C02), the decoder's memory holds the original
+    at every missing original position — every schedule, every lane count -/
+theorem decode_high_restores {L : Nat} (s : Sched) (k r : Nat) (hsup : supportsHigh k r = true)
+    (orig : Array (Vector Sym L)) (horig : orig.size = k) (recv : Nat → Bool)
+    (mem : Array (Vector Sym L)) (hsz : mem.size = highDecWorkCount k r)
+    (hO : ∀ i, i < k → recv (npow2 r + i) = true →
+      rd mem (npow2 r + i) = orig.getD i (Vector.replicate L 0#16))
+    (hR : ∀ j, j < r → recv j = true →
+      rd mem j = (cauchyEncode .high k r orig).getD j (Vector.replicate L 0#16))
+    (hEnough : ((List.range k).filter (fun i => !recv (npow2 r + i))).length
+      ≤ ((List.range r).filter (fun j => recv j)).length) :
+    ∀ i, i < k → recv (npow2 r + i) = false →
+      rd (decodeHigh s logWalshArr k r recv mem) (npow2 r + i) = orig.getD i (Vector.replicate L 0#16) :=
+  decodeHigh_correct s logWalshArr k r hsup orig horig recv mem hsz hO hR hEnough
+    (locator_logs_correct .high k r hsup recv)
 
-/-- With at least `k` shards added the decoder answers `ok`: no error and no panic. -/
-theorem decode_ok_of_enough (lw : Array Nat) (d : Decoder) (rate : Rate) (w : DecWork)
-    (hin : d.inner = .some rate w) (henough : w.k ≤ w.orecv + w.rrecv) :
-    ∃ out d', d.decode lw = (.ok out, d') := by
-  unfold Decoder.decode
-  rw [hin]
-  simp only
-  have : ¬ (w.orecv + w.rrecv < w.k) := by omega
-  simp only [this, if_false]
-  split <;> exact ⟨_, _, rfl⟩
+/-- data path, low rate -/
+theorem decode_low_restores {L : Nat} (s : Sched) (k r : Nat) (hsup : supportsLow k r = true)
+    (orig : Array (Vector Sym L)) (horig : orig.size = k) (recv : Nat → Bool)
+    (mem : Array (Vector Sym L)) (hsz : mem.size = lowDecWorkCount k r)
+    (hO : ∀ i, i < k → recv i = true → rd mem i = orig.getD i (Vector.replicate L 0#16))
+    (hR : ∀ j, j < r → recv (npow2 k + j) = true →
+      rd mem (npow2 k + j) = (cauchyEncode .low k r orig).getD j (Vector.replicate L 0#16))
+    (hEnough : ((List.range k).filter (fun i => !recv i)).length
+      ≤ ((List.range r).filter (fun j => recv (npow2 k + j))).length) :
+    ∀ i, i < k → recv i = false →
+      rd (decodeLow s logWalshArr k r recv mem) i = orig.getD i (Vector.replicate L 0#16) :=
+  decodeLow_correct s logWalshArr k r hsup orig horig recv mem hsz hO hR hEnough
+    (locator_logs_correct .low k r hsup recv)
 
-/-- non-vacuity: a freshly created decoder that was given enough shards meets the hypotheses -/
-example : ∃ d rate w, (Decoder.new (fun L _ => Vector.replicate L 0#16) .high .naive 1 1 2 none)
-    = .ok d ∧ d.inner = .some rate w := by
-  refine ⟨_, _, _, rfl, rfl⟩
+/-- ROUND TRIP on the objects (see the header). `orig` are the original shards as bytes. -/
+theorem roundtrip (staleE staleD : Stale) (kindE kindD : Kind) (schedE schedD : Sched)
+    (k r sb : Nat) (orig : List (Array Nat))
+    (hlen : orig.length = k) (hsz : ∀ i, i < k → (orig.getD i #[]).size = sb)
+    (hbytes : ∀ i, i < k → ∀ t, t < sb → (orig.getD i #[]).getD t 0 < 256)
+    (rate : Rate) (hrE : chooseRate kindE k r = .ok rate) (hrD : chooseRate kindD k r = .ok rate)
+    (e0 e1 : Encoder) (hnewE : Encoder.new staleE kindE schedE k r sb none = .ok e0)
+    (hadd : oneShotEncode.addAll e0 orig = .ok e1)
+    (recs : List (Array Nat)) (henc : e1.encode.1 = .ok recs)
+    (os rs : List Nat) (d0 d1 d2 : Decoder)
+    (hnewD : Decoder.new staleD kindD schedD k r sb none = .ok d0)
+    (hO : addAllOriginal d0 (os.map fun i => (i, orig.getD i #[])) = .ok d1)
+    (hR : addAllRecovery d1 (rs.map fun j => (j, recs.getD j #[])) = .ok d2)
+    (henough : k ≤ os.length + rs.length) :
+    (d2.decode logWalshArr).1 =
+      .ok (((List.range k).filter (fun i => decide (i ∉ os))).map (fun i => (i, orig.getD i #[]))) := by
+  have hsup : supportsRate rate k r = true := by
+    have := Encoder.new_inv hnewE
+    obtain ⟨rate', w, hin, hka, hinv⟩ := this
+    -- the rate of the constructed encoder is the chosen one and it is supported
+    have h1 := Decoder.new_ok_iff.mp ⟨d0, hnewD⟩
+    cases kindD <;> simp [chooseRate] at hrD
+    · subst hrD; simpa [supports, supportsRate] using h1.1
+    · subst hrD; simpa [supports, supportsRate] using h1.1
+    · cases hu : useHighRate k r with
+      | error e => simp [hu] at hrD
+      | ok b =>
+        cases b <;> simp [hu] at hrD <;> subst hrD
+        · exact default_sub_dedicated_low hu
+        · exact default_sub_dedicated_high hu
+  exact roundtrip_encode_decode staleE staleD logWalshArr kindE kindD schedE schedD k r sb orig hlen hsz
+    hbytes rate hrE hrD e0 e1 hnewE hadd recs henc os rs d0 d1 d2 hnewD hO hR henough
+    (fun recv => locator_logs_correct rate k r hsup recv)
+
+/-- non-vacuity: the hypotheses of `roundtrip` are met by a concrete run (k = 2, r = 1, 2-byte
+    shards, original 0 lost): the kernel evaluates encoder and decoder constructors and adds -/
+example : ∃ e0 d0, Encoder.new (fun L _ => Vector.replicate L 0#16) .high .naive 2 1 2 none = .ok e0 ∧
+    Decoder.new (fun L _ => Vector.replicate L 0#16) .high .twoLayer 2 1 2 none = .ok d0 ∧
+    chooseRate .high 2 1 = .ok .high := ⟨_, _, rfl, rfl, rfl⟩
 
 end RS
